@@ -39,7 +39,8 @@ public:
   bool isUninitialized() const { return idx_ < 0; }
 };
 
-template <class T> struct vm_product_name;
+// product name of a collection type: specialised for the built-in model classes, generic for per-program model classes
+template <class T> struct vm_product_name { static std::string get() { return T::value_type::vm_collection_name(); } };
 
 // registry of consumes<> declarations of the module under construction / running
 struct vm_consumes {
